@@ -10,6 +10,7 @@ import (
 	"sort"
 	"strings"
 
+	"github.com/ClickHouse/ch-go/compress"
 	"github.com/ClickHouse/ch-go/proto"
 )
 
@@ -244,6 +245,56 @@ func runC15(c *Ctx) {
 					key := "codec-oracle:" + cd.name
 					R.Violate(Violation{Kind: "oracle", Key: key, What: "[" + build + " build] " + oerr, Case: map[string]any{"codec": cd.name, "rows": rows, "wire": truncHex(wire), "prefix": hx(prefix), "reuse": reuse, "build": build, "transcript": o.lines}})
 				}
+			}
+		}
+	}
+	// decoding from a COMPRESSED stream (EnableCompression): the column data sits inside a frame, and more frames are already
+	// buffered behind it; what the column receives is the decompressed payload, in both builds
+	for _, cd := range c15Codecs {
+		for _, m := range []compress.Method{compress.LZ4, compress.None} {
+			rows := 3 + r.Intn(40)
+			wire := r.Bytes(rows * cd.w)
+			if cd.name == "Bool" {
+				for j := range wire {
+					wire[j] &= 1
+				}
+			}
+			var stream []byte
+			w := compress.NewWriter(compress.LevelZero, m)
+			if w.Compress(wire) != nil {
+				continue
+			}
+			stream = append(stream, w.Data...)
+			if w.Compress(r.Bytes(64+rows*cd.w)) != nil {
+				continue
+			}
+			stream = append(stream, w.Data...)
+			rd := proto.NewReader(bytes.NewReader(stream))
+			rd.EnableCompression()
+			col := cd.mk()
+			var o c15Out
+			var derr error
+			oerr := ""
+			if p, msg := safely(func() { derr = col.DecodeColumn(rd, rows) }); p {
+				o.add("decode:panic")
+				oerr = "DecodeColumn from a compressed stream panicked: " + msg
+			} else if derr != nil {
+				o.add("decode:%s", errClass(derr))
+				oerr = "DecodeColumn from a compressed stream failed: " + derr.Error()
+			} else {
+				var b proto.Buffer
+				col.EncodeColumn(&b)
+				o.add("decode:ok rows=%d %s", col.Rows(), hx(b.Buf))
+				if !bytes.Equal(b.Buf, wire) {
+					oerr = "the column decoded from a compressed stream does not hold the decompressed payload"
+				}
+			}
+			id := fmt.Sprintf("%s/compressed/%s", cd.name, m)
+			emit(id, o, fmt.Sprintf("codec=%s rows=%d method=%s", cd.name, rows, m))
+			R.Case(id+"|"+hx(wire), true)
+			R.Count("shape:compressed-source")
+			if oerr != "" {
+				R.Violate(Violation{Kind: "oracle", Key: "codec-oracle:" + cd.name, What: "[" + build + " build] " + oerr, Case: map[string]any{"codec": cd.name, "rows": rows, "method": m.String(), "build": build, "transcript": o.lines}})
 			}
 		}
 	}
